@@ -35,6 +35,69 @@ def toM (n : Nat) (A : Mat) : Matrix (Fin n) (Fin n) ℚ := fun i j => get A i j
 def hhWvec (sq : Rat → Rat) (k : Nat) (A : Mat) : Fin k → ℚ := fun i => get A i 0 - hhAlpha sq k A * delta i 0
 def hhNw (sq : Rat → Rat) (k : Nat) (A : Mat) : ℚ := sq (sumTo k fun i => hhW sq k A i * hhW sq k A i)
 
+/-! ### the end-to-end QR statement on the list model (`qr_list_model`) -/
+
+/-- what the theorems assume of the square-root parameter **at one argument**: `sq y` is the
+    non-negative root of `y` (a global hypothesis would be unsatisfiable over ℚ) -/
+structure SqAt (sq : Rat → Rat) (y : Rat) : Prop where
+  sq_mul : sq y * sq y = y
+  sq_nonneg : 0 ≤ sq y
+
+/-- `‖x‖²` of the first column `x` of the k×k matrix `A` — the first argument `householder` hands to `sq` -/
+def colSq (k : Nat) (A : Mat) : Rat := sumTo k fun i => get A i 0 * get A i 0
+/-- `‖x − alpha·e₁‖²` — the second argument `householder` hands to `sq` -/
+def wSq (sq : Rat → Rat) (k : Nat) (A : Mat) : Rat := sumTo k fun i => hhW sq k A i * hhW sq k A i
+
+/-- **the square roots taken by the run of `qrLoop` (no rounding) are exact**: follows the loop
+    (`i`, iterations left, `R_submatrix`) and asks `SqAt` at exactly the two arguments of `sq` in
+    each call of `householder` — nothing about any other argument. -/
+def qrSqOK (sq : Rat → Rat) (n : Nat) : Nat → Nat → Mat → Prop
+  | _, 0, _ => True
+  | i, steps + 1, Rsub =>
+    SqAt sq (colSq (n - i) Rsub) ∧ SqAt sq (wSq sq (n - i) Rsub) ∧
+      ∀ P, householder sq id (n - i) Rsub = some P →
+        qrSqOK sq n (i + 1) steps (sub00 (n - i) (mul id (n - i) P Rsub))
+
+/-- the loop invariant of `QR_Decomposition` before the iteration for column `i`:
+    `Q·R = M`, `Q` orthogonal, the first `i` columns of `R` are zero below the diagonal, and
+    `R_submatrix` is the trailing (n−i)×(n−i) block of `R`. -/
+structure QRInv (n i : Nat) (M Q R Rsub : Mat) : Prop where
+  prod : toM n Q * toM n R = toM n M
+  orth : (toM n Q)ᵀ * toM n Q = 1
+  upper : ∀ a b, a < n → b < i → b < a → get R a b = 0
+  sub : ∀ a b, a < n - i → b < n - i → get Rsub a b = get R (a + i) (b + i)
+
+/-- a decidable sufficient condition for `qrSqOK`: run the loop and test the two roots of each step
+    (used for the concrete non-vacuity examples) -/
+def qrSqCheck (sq : Rat → Rat) (n : Nat) : Nat → Nat → Mat → Bool
+  | _, 0, _ => true
+  | i, steps + 1, Rsub =>
+    decide (sq (colSq (n - i) Rsub) * sq (colSq (n - i) Rsub) = colSq (n - i) Rsub ∧ 0 ≤ sq (colSq (n - i) Rsub)) &&
+    decide (sq (wSq sq (n - i) Rsub) * sq (wSq sq (n - i) Rsub) = wSq sq (n - i) Rsub ∧ 0 ≤ sq (wSq sq (n - i) Rsub)) &&
+    match householder sq id (n - i) Rsub with
+    | none => true
+    | some P => qrSqCheck sq n (i + 1) steps (sub00 (n - i) (mul id (n - i) P Rsub))
+
+/-- Pythagorean examples: every square root the run takes is rational
+    (`‖(7,24)‖ = 25`, `‖(32,24)‖ = 40`; `‖(23,24,36)‖ = 49`, `‖(72,24,36)‖ = 84`, …) -/
+def exM2 : Mat := [[7, 0], [24, 25]]
+def exM3 : Mat := [[23, -1055, -96], [24, -25, 17], [36, 624, 50]]
+
+/-- the square roots taken by `k` steps of the model's QR iteration (no rounding) are exact -/
+def eigSqOK (sq : Rat → Rat) (n : Nat) : Nat → Mat → Prop
+  | 0, _ => True
+  | k + 1, A => qrSqOK sq n 0 n A ∧ ∀ A', qrStep sq id n A = some A' → eigSqOK sq n k A'
+
+/-- decidable sufficient condition for `eigSqOK` (for the examples) -/
+def eigSqCheck (sq : Rat → Rat) (n : Nat) : Nat → Mat → Bool
+  | 0, _ => true
+  | k + 1, A => qrSqCheck sq n 0 n A &&
+    match qrStep sq id n A with
+    | none => true
+    | some A' => eigSqCheck sq n k A'
+
+deriving instance DecidableEq for EigOut
+
 /-- the diagonal matrix diag(2,1): witness of the known finding on Eigensystem/Eigenvectors -/
 def witnessM : Mat := [[2, 0], [0, 1]]
 
